@@ -31,7 +31,7 @@ META = {
     "not_decided": ["strict positivity / finiteness of entries", "whether the value-dependent filter `if el:` drops a stored zero entry",
                     "the unit-sphere and rotation-sphere geometry itself (C03, C04, C15)"],
     "trusted": [T.TABLE_VERSION, "summaries of sa/fgmodel.py", "scipy.sparse.bmat block placement; A+B adds entries"],
-    "assumptions": ["position matrix P and rotation block are symmetric with empty diagonal (C05, C03, C04)"],
+    "assumptions": ["rotation block is symmetric with empty diagonal (C03, C04); the position matrix P is re-checked here with the C05 rules"],
 }
 
 n_b, n_o, n_t, f = Poly.sym("n_b"), Poly.sym("n_o"), Poly.sym("n_t"), Poly.sym("f")
@@ -398,6 +398,12 @@ def run(ctx, repo, tier):
         ctx.instance("DISPATCH")
         ctx.check(vals == [prop], "DISPATCH", f"C02.getter.{g}", f"{g} selects property {prop!r}", m.where, witness=str(vals))
     volumes_check(ctx, repo, "C02")
+    # ------------------------------------------------------------ inherited: the position matrix P itself (C05): the Kronecker lift above keeps
+    # symmetry / one common pattern only if P has them
+    from ..driver import PrefixCtx
+    from .C05 import analyse as c05_analyse
+    for prop in GETTERS:
+        c05_analyse(PrefixCtx(ctx, "C05.", "C02.position."), repo, prop)
     # ------------------------------------------------------------ the rotation block's fold
     check_fold(ctx, repo, "C02")
     ctx.require_instances("LAYOUT", 20, "layout obligations")
